@@ -72,6 +72,9 @@ pub enum EvilClass {
     BadValue,
     /// legal but unusual: must NOT close the connection
     Control,
+    /// the victim's application has called stop_sending on a stream of the evil side that is still incomplete (receive state
+    /// "Stopping"); the evil side answers the STOP_SENDING with a RESET_STREAM whose final size is far beyond the stream's limit
+    AfterStopSending,
 }
 
 #[derive(Clone, Copy, Debug, Hash, PartialEq, Eq, Serialize, Deserialize)]
